@@ -24,5 +24,9 @@ def run(prog, tier):
     CR.frame_writer_rule(prog, res, 'width-sign/frame-write')
     CR.frame_reader_rule(prog, res, 'width-sign/frame-read')
     CR.numeric_payload_rule(prog, res)
+    # the REAL words reach the object through the value setters of Point / Channel: they store what they are given
+    import setters
+    setters.rule(prog, res, {'ezc3d::DataNS::Points3dNS::Point', 'ezc3d::DataNS::AnalogsNS::Channel'}, rule_name='value-setters', minimum=5)
     CR.primitive_read_rule(prog, res)
+    CR.unsigned_dest_rule(prog, res)
     return res
